@@ -104,6 +104,16 @@ def reinit_script(rng, i, variant):
     if variant == "subset":
         ops.append({"op": "reinit_join", "who": meta["left_out"], "welcome_any": "rc", "tree": "rc.tree"})
         meta["intruders"].append((len(ops) - 1, "a member of the old group that was left out"))
+    if variant == "equal" and included:
+        # usage of the resumption PSK: a BRANCH of the frozen group (same announced group id, same key
+        # packages) is not the re-init successor, and the successor's Welcome is not a branch
+        ops.append({"op": "branch", "who": c, "id": "bx", "gid": gid, "kps": kps, "discard": True})
+        m = included[-1]
+        ops.append({"op": "reinit_join", "who": m, "welcome_any": "bx", "tree": "bx.tree"})
+        meta["intruders"].append((len(ops) - 1, "a branch Welcome (resumption usage branch) offered as the re-init successor"))
+        ops.append({"op": "join_subgroup", "who": m, "welcome_any": "rc", "tree": "rc.tree", "keep_sub": True})
+        meta["intruders"].append((len(ops) - 1, "the re-init Welcome (resumption usage reinit) offered as a branch of the old group"))
+    ops[:] = [o for o in ops if o is not None]
     ops.append({"op": "observe", "who": c, "observe": "all"})
     meta["final"] = len(ops) - 1
     return g.script(), meta
